@@ -145,6 +145,7 @@ class Engine:
         self.intrinsics = []      # (regex, fn, label)
         self.stubs = []           # per-check (regex, fn, label)
         self.struct_models = {}   # type last segment -> fn(eng, st, base) building a symbolic value
+        self.inline_pred = None   # harness hook: (eng, name, callee) -> bool, consulted when inline_only does not list the callee
         self.type_models = []     # harness hook: (regex over the full type text, maker(eng, st, base, ty)) consulted first by fresh_of_type
         self.unsupported_as_outcome = False   # harness option: a path that leaves the executor's vocabulary ends as Outcome('unsupported')
         self.lenient = False      # under-constrained mode: unknown callees become uninterpreted calls
@@ -1381,7 +1382,8 @@ class Engine:
                 return [(s, 'ret', self.uninterpreted_call(s, callee, args, ci))]
         # 4. inline crate function
         name = self.resolve_call(callee, len(args))
-        if name is not None and self.inline_only is not None and not any(rx.search(name) or rx.search(callee) or rx.search(self.fn_file(name)) for rx in self.inline_only):
+        if name is not None and self.inline_only is not None and not any(rx.search(name) or rx.search(callee) or rx.search(self.fn_file(name)) for rx in self.inline_only) \
+                and not (self.inline_pred is not None and self.inline_pred(self, name, callee)):
             return [(s, 'ret', self.uninterpreted_call(s, callee, args, ci))]
         if name is not None:
             cfn = self.get_fn(name)
